@@ -38,8 +38,8 @@ func genC24(seed uint64) *Plan {
 	out.Name, out.Active, out.DialTarget, out.ReconnectUS = "n-out", true, true, 1_000_000
 	in := base
 	in.Name, in.Shadow = "n-in", true
-	scenario := pick(r, []string{"clean", "clean", "racy", "racy", "late"})
-	if scenario == "clean" {
+	scenario := pick(r, []string{"clean", "clean", "racy", "racy", "late", "simul"})
+	if scenario == "clean" || scenario == "simul" {
 		out.ManualOpen, in.ManualOpen = true, true
 	} else {
 		out.ReplyDelayUS = int64(100 + r.Intn(40_000))
@@ -68,6 +68,22 @@ func genC24(seed uint64) *Plan {
 		pl.Steps = append(pl.Steps, Step{GapUS: int64(1000 + r.Intn(50_000)), Kind: "send_open", Peer: second})
 		pl.Steps = append(pl.Steps, Step{GapUS: int64(10_000 + r.Intn(50_000)), Kind: "keepalive", Peer: first, Label: "complete"})
 		pl.Steps = append(pl.Steps, Step{GapUS: int64(1000 + r.Intn(50_000)), Kind: "keepalive", Peer: second, Label: "complete"})
+	case "simul":
+		// both OPENs arrive in the same instant: the two FSM goroutines handle them interleaved at
+		// every lock boundary and write (seeded scheduler), e.g. one has passed its collision check
+		// and not yet published its new state when the other one checks
+		pl.Sim.GateProb = pick(r, []float64{0.5, 1})
+		pl.Sim.Sticky = pick(r, []float64{0, 0.5})
+		pl.Sim.RandomHandoff = r.Chance(0.5)
+		pl.Steps = append(pl.Steps, Step{GapUS: int64(680_000 + r.Intn(40_000)), Kind: "connect2", Peer: 1})
+		pl.Steps = append(pl.Steps, Step{GapUS: 200_000, Kind: "checkpoint", Label: "both_opensent"})
+		pl.Steps = append(pl.Steps, Step{GapUS: 1000, Kind: "par", Par: []Step{{Kind: "send_open", Peer: 0}, {Kind: "send_open", Peer: 1}}})
+		first, second := 0, 1
+		if r.Chance(0.5) {
+			first, second = 1, 0
+		}
+		pl.Steps = append(pl.Steps, Step{GapUS: int64(10_000 + r.Intn(50_000)), Kind: "keepalive", Peer: first, Label: "complete"})
+		pl.Steps = append(pl.Steps, Step{GapUS: int64(1000 + r.Intn(50_000)), Kind: "keepalive", Peer: second, Label: "complete"})
 	case "racy":
 		pl.Steps = append(pl.Steps, Step{GapUS: int64(650_000 + r.Intn(100_000)), Kind: "connect2", Peer: 1})
 	case "late":
@@ -75,7 +91,8 @@ func genC24(seed uint64) *Plan {
 		pl.Steps = append(pl.Steps, Step{GapUS: int64(2_000_000 + r.Intn(5_000_000)), Kind: "connect2", Peer: 1})
 	}
 	pl.Steps = append(pl.Steps, Step{GapUS: 3_000_000, Kind: "checkpoint", Label: "settled"})
-	if scenario != "clean" && r.Chance(0.6) {
+	manual := scenario == "clean" || scenario == "simul" // endpoints scripted by hand: nothing happens without send_open / keepalive steps
+	if !manual && r.Chance(0.6) {
 		// the neighbour restarts: both connections go away, the DUT dials again after its reconnect
 		// interval and the neighbour connects in around the same time: a second collision on a peer
 		// that still remembers the FSMs of the first one
@@ -87,7 +104,7 @@ func genC24(seed uint64) *Plan {
 			pl.Steps = append(pl.Steps, Step{GapUS: 4_000_000, Kind: "checkpoint", Label: "settled"})
 		}
 		pl.Note = scenario + "+again"
-	} else if scenario == "clean" && r.Chance(0.5) {
+	} else if manual && r.Chance(0.5) {
 		// the same with hand-scripted endpoints: the loser of the first collision was ceased in
 		// OpenConfirm; both connections are dropped and a second clean collision follows
 		pl.Steps = append(pl.Steps, Step{GapUS: int64(100_000 + r.Intn(1_000_000)), Kind: "peer_close", Peer: 0, On: r.Chance(0.5)})
@@ -212,5 +229,10 @@ func (o *c24Oracle) Final(w *World) {
 }
 
 func init() {
-	bgpProps["C24"] = propDef{Gen: genC24, Oracles: func(p *Plan) []Oracle { return []Oracle{&c24Oracle{}} }}
+	bgpProps["C24"] = propDef{Gen: genC24, Oracles: func(p *Plan) []Oracle { return []Oracle{&c24Oracle{}} },
+		// hand-scripted endpoints do nothing by themselves: without their OPEN / KEEPALIVE steps the
+		// "a session exists after the collision" expectation of a "settled" checkpoint is void
+		KeepStep: func(s *Step) bool {
+			return s.Kind == "send_open" || s.Kind == "keepalive" || s.Kind == "par" || s.Kind == "connect2"
+		}}
 }
